@@ -16,7 +16,7 @@ REQUIRED_CLASSES = {t: ["last_is_periodic_reversal", "last_not_periodic_reversal
                         "hcm:_handle_case_a_i", "hcm:_handle_case_a_ii", "hcm:_handle_case_b", "hcm:_handle_case_c_i",
                         "hcm:_handle_case_c_ii", "refine:trailing", "refine:leading", "refine:interior",
                         "refine:duplicate", "float_loads", "input:several_points", "load_step_labels:descending", "load_step_labels:shuffled",
-                        "load_step_labels:gaps", "node_ids:descending", "node_ids:shuffled_large"]
+                        "load_step_labels:gaps", "node_ids:descending", "node_ids:shuffled_large", "index:selected_from_larger_mesh(unused_levels)"]
                     for t in ("quick", "thorough")}
 REQUIRED_MONITORS = ["pass2==periodic_rainflow", "pass2_all_closed", "half_only_in_pass1_and_symmetric",
                      "refinement:pass1_unchanged", "refinement:pass2_unchanged", "several_points==single_point"]
@@ -176,7 +176,10 @@ def run_case(case, ctx):
         law_m = hcm.make_law(max_load=pd.Series([mx * f for f in factors], index=pd.Index(node_ids, name="node_id")))
         rec = RFR.FKMNonlinearRecorder()
         det_m = FKMNonlinearDetector(recorder=rec, notch_approximation_law=law_m)
-        ser = hcm.multi_point_series(seq, factors, labels, node_ids)
+        sel = bool(rng.random() < 0.35)
+        if sel:
+            ctx.tag("index:selected_from_larger_mesh(unused_levels)")
+        ser = hcm.multi_point_series(seq, factors, labels, node_ids, selected_from_larger_mesh=sel)
         det_m.process_hcm_first(ser)
         det_m.process_hcm_second(ser)
         cm = rec.collective
